@@ -6,6 +6,7 @@ that make history matter (DESIGN.md §3 C10):
  2. cache transparency: J-PAIR, J-BISECT, J-KEY, J-WHO, J-PURE over every lazily built cache and navigation link.
 """
 import ast
+from sa.canon import U
 from sa.world import get_world
 from sa import expr, paths, dispatch, hrules, cursor
 from sa.model import walk_no_nested
@@ -147,7 +148,7 @@ def check_preserve(ctx, w):
             raise AnalysisError('H-PRES', f.construct, 'protected call %s not found' % inner)
         withs = [n for n in walk_no_nested(f.node) if isinstance(n, ast.With) and any(
             isinstance(it.context_expr, ast.Call) and dispatch.callee_name(it.context_expr) == 'preserve_stream_pos' and
-            it.context_expr.args and ast.unparse(it.context_expr.args[0]) == stream for it in n.items)]
+            it.context_expr.args and U(it.context_expr.args[0]) == stream for it in n.items)]
         ok = all(any(paths.contains_node(wn, c) for wn in withs) for c in calls)
         ctx.ob('H-PRES', f.construct, '%s inside preserve_stream_pos(%s)' % (inner, stream), ok,
                msg='a parse at a position unrelated to the caller\'s sequential parse must restore the stream position: the callers '
@@ -159,20 +160,20 @@ def _mutations(fnode, attr):
     out = []
     for st in walk_no_nested(fnode):
         if isinstance(st, ast.Expr) and isinstance(st.value, ast.Call) and isinstance(st.value.func, ast.Attribute) and \
-                st.value.func.attr in MUTATORS and ast.unparse(st.value.func.value) == 'self.' + attr:
+                st.value.func.attr in MUTATORS and U(st.value.func.value) == 'self.' + attr:
             c = st.value
-            out.append((c.func.attr, ast.unparse(c.args[0]) if c.args else '', st))
+            out.append((c.func.attr, U(c.args[0]) if c.args else '', st))
         elif isinstance(st, ast.Assign):
             for t in st.targets:
-                if isinstance(t, ast.Subscript) and ast.unparse(t.value) == 'self.' + attr:
-                    out.append(('setitem', ast.unparse(t.slice), st))
-                elif isinstance(t, ast.Attribute) and ast.unparse(t) == 'self.' + attr:
-                    out.append(('assign', ast.unparse(st.value), st))
+                if isinstance(t, ast.Subscript) and U(t.value) == 'self.' + attr:
+                    out.append(('setitem', U(t.slice), st))
+                elif isinstance(t, ast.Attribute) and U(t) == 'self.' + attr:
+                    out.append(('assign', U(st.value), st))
         elif isinstance(st, ast.Delete):
             for t in st.targets:
-                if isinstance(t, ast.Subscript) and ast.unparse(t.value) == 'self.' + attr:
-                    out.append(('delitem', ast.unparse(t.slice), st))
-        elif isinstance(st, ast.AugAssign) and ast.unparse(st.target) == 'self.' + attr:
+                if isinstance(t, ast.Subscript) and U(t.value) == 'self.' + attr:
+                    out.append(('delitem', U(t.slice), st))
+        elif isinstance(st, ast.AugAssign) and U(st.target) == 'self.' + attr:
             out.append(('augassign', '', st))
     return out
 
@@ -232,7 +233,7 @@ def check_bisect(ctx, w):
         env = expr.FEnv(f.node, inline=False)
         ctx.ob('J-BISECT', f.construct, 'flavour bisect_right (probe [i-1])', n.func.id == 'bisect_right', got=n.func.id,
                msg='the hit tests of this repository probe keys[i-1]; that pairs only with bisect_right')
-        src = ast.unparse(f.node)
+        src = U(f.node)
         # guard forms accepted for the [i-1] probe
         guards = ['i >= 1', 'i > 0', 'if not self.entries', 'self.get_top_DIE()']
         ok = any(g in src for g in guards)
@@ -246,7 +247,7 @@ def check_bisect(ctx, w):
         for mname, m in sorted(ci.methods.items()):
             for st in walk_no_nested(m.node):
                 if isinstance(st, ast.Assign) and isinstance(st.value, ast.Call) and isinstance(st.value.func, ast.Name) and \
-                        st.value.func.id.startswith('bisect') and len(st.value.args) == 2 and ast.unparse(st.value.args[0]) == 'self.' + keys and \
+                        st.value.func.id.startswith('bisect') and len(st.value.args) == 2 and U(st.value.args[0]) == 'self.' + keys and \
                         isinstance(st.targets[0], ast.Name):
                     n_pair_sites += 1
                     _pair_site(ctx, w, ci, m, st, keys, vals)
@@ -270,7 +271,7 @@ def _conjuncts(test, pol):
 
 def _pair_site(ctx, w, ci, m, st, keys, vals):
     ivar = st.targets[0].id
-    key = ast.unparse(st.value.args[1])
+    key = U(st.value.args[1])
     env = expr.FEnv(m.node, inline=False)
     probe = 'self.%s[%s - 1]' % (keys, ivar)
     hit_val = 'self.%s[%s - 1]' % (vals, ivar)
@@ -289,7 +290,7 @@ def _pair_site(ctx, w, ci, m, st, keys, vals):
                 seen_site = True
                 continue
             if node is not None and not seen_site:
-                if any(isinstance(c, ast.Call) and ast.unparse(c.func) == 'self.get_top_DIE' for c in ast.walk(node)):
+                if any(isinstance(c, ast.Call) and U(c.func) == 'self.get_top_DIE' for c in ast.walk(node)):
                     top_called = True
                 continue
             if not seen_site or node is None:
@@ -300,7 +301,7 @@ def _pair_site(ctx, w, ci, m, st, keys, vals):
                 atoms = node.values if isinstance(node, ast.BoolOp) and isinstance(node.op, ast.And) else [node]
                 guarded = top_called or any(c in pos and pl for c, pl in facts)
                 for a in atoms:
-                    if probe in ast.unparse(a) and not guarded:
+                    if probe in U(a) and not guarded:
                         ok_guard = False
                         why = 'probe %s evaluated without %s >= 1 / get_top_DIE()' % (probe, ivar)
                     if expr.cond_str(a, env) in pos:
@@ -308,18 +309,18 @@ def _pair_site(ctx, w, ci, m, st, keys, vals):
                 for t, pl in conj:
                     facts.append((expr.cond_str(t, env), pl))
                 continue
-            src = ast.unparse(node)
+            src = U(node)
             if hit_val in src:
                 hit_paths += 1
                 if (eq, True) not in facts:
                     ok_hit = False
                     why = 'value %s used without the test %s == %s' % (hit_val, key, probe)
-            ins_k = [c for c in ast.walk(node) if isinstance(c, ast.Call) and ast.unparse(c.func) == 'self.%s.insert' % keys]
+            ins_k = [c for c in ast.walk(node) if isinstance(c, ast.Call) and U(c.func) == 'self.%s.insert' % keys]
             for c in ins_k:
                 miss_paths += 1
-                if (eq, True) in facts or [ast.unparse(a) for a in c.args] != [ivar, key]:
+                if (eq, True) in facts or [U(a) for a in c.args] != [ivar, key]:
                     ok_miss = False
-                    why = 'insert(%s) on a hit path or not at (%s, %s)' % (', '.join(ast.unparse(a) for a in c.args), ivar, key)
+                    why = 'insert(%s) on a hit path or not at (%s, %s)' % (', '.join(U(a) for a in c.args), ivar, key)
     flavour = st.value.func.id
     if hit_paths == 0 and miss_paths == 0:
         # the index only selects a start key (get_CU_containing): the probe guard is the whole obligation
@@ -338,17 +339,17 @@ def _top_invariant(ctx, w, ci, top, keys, vals):
     """get_top_DIE answers `self.<vals>[0]` whenever the cache is non-empty: so every other insert must come after a
     get_top_DIE() call on its path (the top DIE has the smallest offset of the unit, bisect keeps it at index 0)."""
     env = expr.FEnv(top.node, inline=False)
-    off = [a for a in ('cu_die_offset', 'tu_die_offset') if ('self.' + a) in ast.unparse(top.node)]
+    off = [a for a in ('cu_die_offset', 'tu_die_offset') if ('self.' + a) in U(top.node)]
     cached = fresh = 0
     ok = True
     why = None
     for p in paths.func_paths(top.node):
         facts = [(expr.cond_str(t, env), pl) for t, pl in p.conds()]
-        ins = [(ast.unparse(c.func), [ast.unparse(a) for a in c.args]) for s in p.stmts() for c in ast.walk(s)
+        ins = [(U(c.func), [U(a) for a in c.args]) for s in p.stmts() for c in ast.walk(s)
                if isinstance(c, ast.Call) and isinstance(c.func, ast.Attribute) and c.func.attr == 'insert']
         if ('T(_%s)' % keys.lstrip('_'), True) in facts or ('T(%s)' % keys, True) in facts:
             cached += 1
-            if p.end[0] != 'return' or ast.unparse(p.end[1]) != 'self.%s[0]' % vals or ins:
+            if p.end[0] != 'return' or U(p.end[1]) != 'self.%s[0]' % vals or ins:
                 ok = False
                 why = 'cached path does not return %s[0]' % vals
         elif p.end[0] == 'return':
@@ -356,7 +357,7 @@ def _top_invariant(ctx, w, ci, top, keys, vals):
             kk = [a for f_, a in ins if f_ == 'self.%s.insert' % keys]
             vv = [a for f_, a in ins if f_ == 'self.%s.insert' % vals]
             if len(kk) != 1 or len(vv) != 1 or kk[0][0] != '0' or vv[0][0] != '0' or not off or kk[0][1] != 'self.' + off[0] or \
-                    ast.unparse(p.end[1]) != vv[0][1]:
+                    U(p.end[1]) != vv[0][1]:
                 ok = False
                 why = ('fresh path inserts', kk, vv)
     ctx.ob('J-BISECT', top.construct, 'top DIE cached at index 0 with its offset', ok and cached >= 1 and fresh >= 1, got=why or (cached, fresh), line=top.node.lineno,
@@ -366,11 +367,11 @@ def _top_invariant(ctx, w, ci, top, keys, vals):
         if m is top:
             continue
         for c in walk_no_nested(m.node):
-            if isinstance(c, ast.Call) and ast.unparse(c.func) in ('self.%s.insert' % keys, 'self.%s.append' % keys):
+            if isinstance(c, ast.Call) and U(c.func) in ('self.%s.insert' % keys, 'self.%s.append' % keys):
                 n += 1
                 dom = True
                 for p in paths.paths_reaching(m.node, c):
-                    if not any(isinstance(x, ast.Call) and ast.unparse(x.func) == 'self.get_top_DIE' for e in p.events if len(e) > 1 and isinstance(e[1], ast.AST)
+                    if not any(isinstance(x, ast.Call) and U(x.func) == 'self.get_top_DIE' for e in p.events if len(e) > 1 and isinstance(e[1], ast.AST)
                                for x in ast.walk(e[1])):
                         dom = False
                 ctx.ob('J-BISECT', m.construct, 'insert into %s dominated by get_top_DIE()' % keys, dom, line=c.lineno,
@@ -390,12 +391,12 @@ def check_keys(ctx, w):
         for n in walk_no_nested(f.node):
             if isinstance(n, ast.If) and isinstance(n.test, ast.Compare) and len(n.test.ops) == 1 and isinstance(n.test.ops[0], (ast.In, ast.NotIn)):
                 cache = n.test.comparators[0]
-                cs = ast.unparse(cache)
+                cs = U(cache)
                 if not (cs.startswith('self._') or cs.startswith('cls._')):
                     continue
                 key = n.test.left
                 stores = [s for s in walk_no_nested(f.node) if isinstance(s, ast.Assign) and isinstance(s.targets[0], ast.Subscript) and
-                          ast.unparse(s.targets[0].value) == cs]
+                          U(s.targets[0].value) == cs]
                 if not stores:
                     continue
                 n_sites += 1
@@ -423,7 +424,7 @@ def check_keys(ctx, w):
                                  not any((f.mod.replace('elftools/', ''), f.qual, r) in KEY_EXC for r in roots))
                 if missing:
                     extra = extra + ['field ' + a for a in missing]
-                ctx.ob('J-KEY', f.construct, 'cache %s keyed by %s' % (cs, ast.unparse(key)), not extra, got=extra,
+                ctx.ob('J-KEY', f.construct, 'cache %s keyed by %s' % (cs, U(key)), not extra, got=extra,
                        msg='the cached value depends on a parameter that is not part of the cache key: a later call with another '
                            'value of it gets the stale answer', line=n.lineno, sample='%s: value depends only on %s' % (f.construct, sorted(frontier)))
     ctx.analysed['memo_sites'] = n_sites
@@ -433,10 +434,10 @@ def check_keys(ctx, w):
         for n in walk_no_nested(f.node):
             if isinstance(n, ast.If) and isinstance(n.test, ast.Compare) and isinstance(n.test.ops[0], ast.Is) and \
                     isinstance(n.test.comparators[0], ast.Constant) and n.test.comparators[0].value is None and \
-                    isinstance(n.test.left, ast.Attribute) and ast.unparse(n.test.left).startswith('self._'):
-                slot = ast.unparse(n.test.left)
+                    isinstance(n.test.left, ast.Attribute) and U(n.test.left).startswith('self._'):
+                slot = U(n.test.left)
                 for s in n.body:
-                    if isinstance(s, ast.Assign) and ast.unparse(s.targets[0]) == slot:
+                    if isinstance(s, ast.Assign) and U(s.targets[0]) == slot:
                         used = set(x.id for x in ast.walk(s.value) if isinstance(x, ast.Name)) & params
                         ctx.ob('J-KEY', f.construct, 'lazy slot %s' % slot, not used, got=sorted(used),
                                msg='a lazily filled slot is computed from a parameter of the call that happens to come first')
@@ -527,15 +528,15 @@ def check_pure(ctx, w):
             tgt = None
             if isinstance(n, ast.Attribute) and isinstance(n.ctx, ast.Store) and isinstance(n.value, ast.Name) and n.value.id == 'self':
                 tgt = ('store', n.attr, 'self.' + n.attr)
-            elif isinstance(n, ast.Subscript) and isinstance(n.ctx, ast.Store) and ast.unparse(n.value).startswith('self'):
+            elif isinstance(n, ast.Subscript) and isinstance(n.ctx, ast.Store) and U(n.value).startswith('self'):
                 root = _root_attr(n.value)
-                tgt = ('setitem', root, ast.unparse(n))
+                tgt = ('setitem', root, U(n))
             elif isinstance(n, ast.Call) and isinstance(n.func, ast.Attribute) and n.func.attr in MUTATORS + ('update', 'setdefault') and \
-                    ast.unparse(n.func.value).startswith('self'):
+                    U(n.func.value).startswith('self'):
                 root = _root_attr(n.func.value)
-                tgt = ('mutate', root, ast.unparse(n.func))
-            elif isinstance(n, ast.Call) and isinstance(n.func, ast.Name) and n.func.id == 'setattr' and n.args and ast.unparse(n.args[0]).startswith('self'):
-                tgt = ('setattr', None, ast.unparse(n)[:40])
+                tgt = ('mutate', root, U(n.func))
+            elif isinstance(n, ast.Call) and isinstance(n.func, ast.Name) and n.func.id == 'setattr' and n.args and U(n.args[0]).startswith('self'):
+                tgt = ('setattr', None, U(n)[:40])
             if tgt and tgt[1] not in own:
                 effects.append(tgt)
         if not effects:
@@ -564,12 +565,12 @@ def check_shared(ctx, w):
                     writes = []
                     for x in ast.walk(m):
                         if isinstance(x, ast.Attribute) and isinstance(x.ctx, (ast.Store, ast.Del)) and isinstance(x.value, ast.Name) and x.value.id == 'self':
-                            writes.append(ast.unparse(x))
-                        elif isinstance(x, ast.Subscript) and isinstance(x.ctx, (ast.Store, ast.Del)) and ast.unparse(x.value).startswith('self.'):
-                            writes.append(ast.unparse(x))
+                            writes.append(U(x))
+                        elif isinstance(x, ast.Subscript) and isinstance(x.ctx, (ast.Store, ast.Del)) and U(x.value).startswith('self.'):
+                            writes.append(U(x))
                         elif isinstance(x, ast.Call) and isinstance(x.func, ast.Attribute) and x.func.attr in MUTATORS + ('update', 'setdefault') and \
-                                ast.unparse(x.func.value).startswith('self.'):
-                            writes.append(ast.unparse(x.func))
+                                U(x.func.value).startswith('self.'):
+                            writes.append(U(x.func))
                     ctx.ob('J-SHARED', '%s:%s.%s' % (rel.replace('elftools/', ''), cls.name, m.name), 'writes nothing onto the construct', not writes, got=writes,
                            msg='a parse-time method stores data on the (shared, cached) construct object: the next parse with the same '
                                'structs sees state left by this one', line=m.lineno,
@@ -584,7 +585,7 @@ def _root_attr(node):
         if isinstance(n, ast.Attribute) and isinstance(n.value, ast.Name) and n.value.id == 'self':
             return n.attr
         if isinstance(n, ast.Subscript) and isinstance(n.value, ast.Name) and n.value.id == 'self':
-            return 'self[%s]' % ast.unparse(n.slice)
+            return 'self[%s]' % U(n.slice)
         n = n.value if not isinstance(n, ast.Call) else n.func
     return None
 
